@@ -340,6 +340,16 @@ def run_relay_check(work, prop, tier, replay=None):
             futs = [ex.submit(validate_chunk, work, ch, invs, mods, [], "tv-g%d-c%d" % (gi, ci)) for ci, ch in enumerate(chunks)]
             for f in futs:
                 fails += f.result()
+    conc = None
+    if prop in ("C01", "C02", "C07", "C10") and not replay:
+        import conc_check
+        conc = conc_check.run_conc(work, prop, tier)
+        work.log("schedules: %d scenarios, %d schedules on the real handlers, %d distinct outcomes, %d failing" % (
+            conc["scenarios"], sum(x["schedules"] for x in conc["summaries"]), conc["outcomes"], len(conc["fails"])))
+        for fr in conc["fails"]:
+            fails.append(fr)
+            if fr.get("scenario"):
+                hist_by_id[fr["hid"]] = dict(fr["scenario"], hid=fr["hid"], failing_outcome=fr["rec"])
     extra = None
     if prop == "C10" and not replay:
         import idgen_check
@@ -395,6 +405,11 @@ def run_relay_check(work, prop, tier, replay=None):
         failing_histories=[dict(hid=fr["hid"], signature=fr["sig"]) for fr in fails][:20],
         known_findings_reproduced=[k["id"] for k, _ in known],
     )
+    if conc:
+        coverage["schedules"] = dict(scenarios=conc["scenarios"], schedules_executed_on_real_code=sum(x["schedules"] for x in conc["summaries"]),
+                                     distinct_outcomes_validated=conc["outcomes"], deadlocks=sum(x["deadlocks"] for x in conc["summaries"]),
+                                     per_scenario=conc["summaries"])
+        coverage["traces_validated_against_impl"] += conc["outcomes"]
     if extra:
         coverage["id_source"] = dict(model_states=extra["mc"]["distinct"], model_transitions=extra["mc"]["generated"],
                                      scripts_replayed_on_real_generator=extra["scripts"], burst=extra["burst"])
